@@ -132,18 +132,6 @@ Proof.
 Qed.
 
 (* ---- the file lines of the records the reader returned ---------------------------------- *)
-(* directory names end in at most one slash: TrimSuffix removes one per write *)
-Definition one_slash (h : hdr) : Prop :=
-  h_isdir h = true -> last_char (trim_suffix_char ch_slash (h_name h)) <> Some ch_slash.
-
-Lemma trim_idem s : last_char (trim_suffix_char ch_slash s) <> Some ch_slash ->
-  trim_suffix_char ch_slash (trim_suffix_char ch_slash s) = trim_suffix_char ch_slash s.
-Proof.
-  intro H. set (t := trim_suffix_char ch_slash s) in *. unfold trim_suffix_char.
-  destruct (last_char t) as [a|]; [|reflexivity]. destruct (Ascii.eqb a ch_slash) eqn:E; [|reflexivity].
-  apply Ascii.eqb_eq in E. congruence.
-Qed.
-
 Lemma path_base_render r b S : normal b -> vs r S -> path_base (render r (rev (b :: S))) = b.
 Proof.
   intros Nb V. assert (V' : vs r (b :: S)) by (cbn [vs]; left; auto).
@@ -168,12 +156,12 @@ Proof. unfold perm_of_mode, rec_clean. cbn [h_mode]. apply land_511_idem. Qed.
 Lemma perm_items_clean tag d h : perm_items tag d (rec_clean h) = perm_items tag d h.
 Proof. unfold perm_items, perm_default, perm_text. rewrite perm_of_mode_clean. reflexivity. Qed.
 
-Lemma file_head_clean h : one_slash h -> (h_isdir h = false -> plain_base (h_name h)) ->
+Lemma file_head_clean h : (h_isdir h = false -> plain_base (h_name h)) ->
   file_head (rec_clean h) = file_head h.
 Proof.
-  intros O B. unfold file_head. rewrite !perm_items_clean. unfold rec_clean at 1 2 3. cbn [h_isdir h_name].
+  intros B. unfold file_head. rewrite !perm_items_clean. unfold rec_clean at 1 2 3. cbn [h_isdir h_name].
   destruct (h_isdir h) eqn:D.
-  - rewrite (trim_idem _ (O D)). reflexivity.
+  - rewrite dir_trim_idem. reflexivity.
   - rewrite (path_base_clean _ (B eq_refl)). reflexivity.
 Qed.
 
@@ -203,18 +191,18 @@ Lemma drop_z_zline z : zline_ok z -> drop_z z = [].
 Proof. intros [->|(x & ->)]; reflexivity. Qed.
 
 Lemma files_lines_clean sorted : forall fl, files_lines enc hexdec sorted = Ok fl ->
-  Forall one_slash sorted -> (forall h, In h sorted -> h_isdir h = false -> plain_base (h_name h)) ->
+  (forall h, In h sorted -> h_isdir h = false -> plain_base (h_name h)) ->
   files_lines enc hexdec (map rec_clean sorted) = Ok (drop_z fl).
 Proof.
-  induction sorted as [|h sorted IH]; intros fl E O B.
+  induction sorted as [|h sorted IH]; intros fl E B.
   - cbn in E. apply Ok_inj in E. subst fl. reflexivity.
   - cbn [files_lines] in E. destruct (file_lines enc hexdec h) as [a| | |] eqn:Ea; cbn [rbind] in E; try discriminate.
     destruct (files_lines enc hexdec sorted) as [b| | |] eqn:Eb; cbn [rbind] in E; try discriminate.
-    apply Ok_inj in E. subst fl. inversion O as [|? ? Oh Os]; subst.
+    apply Ok_inj in E. subst fl.
     destruct (file_lines_shape enc hexdec h a Ea) as (z & Hz & ->).
     cbn [map files_lines]. rewrite (file_lines_nocsum (rec_clean h) eq_refl).
-    rewrite (IH b eq_refl Os (fun x Ix => B x (or_intror Ix))). cbn [rbind].
-    rewrite (file_head_clean h Oh (B h (or_introl eq_refl))).
+    rewrite (IH b eq_refl (fun x Ix => B x (or_intror Ix))). cbn [rbind].
+    rewrite (file_head_clean h (B h (or_introl eq_refl))).
     rewrite !drop_z_app, drop_z_head, (drop_z_zline z Hz), app_nil_r. reflexivity.
 Qed.
 
@@ -288,7 +276,7 @@ Variable hexdec : string -> option (list N).
 Hypothesis codec : forall b, dec (enc b) = Some b.
 
 Theorem installed_fixpoint p files t :
-  inst_pkg_ok p -> p_name p <> "" -> sort_envelope files -> Forall id_ok files -> Forall one_slash files ->
+  inst_pkg_ok p -> p_name p <> "" -> sort_envelope files -> Forall id_ok files ->
   write_installed enc hexdec p files = Ok t ->
   (forall sorted ls, sort_headers files = Ok sorted -> installed_record_lines enc hexdec p sorted = Ok ls ->
      lines_fit installed_max_token ls) ->
@@ -302,7 +290,7 @@ Theorem installed_fixpoint p files t :
     Forall2 line_step (pkg_to_installed enc p) (pkg_to_installed enc (norm_inst p)) /\
     InstalledFixpointModIZ t t'.
 Proof.
-  intros Hp Hn Henv Hid Hone Hw Hfit. destruct installed_tables_pinned as (Hrows & _).
+  intros Hp Hn Henv Hid Hw Hfit. destruct installed_tables_pinned as (Hrows & _).
   destruct (installed_roundtrip_partial enc dec hexdec codec p files t Hp Hn Henv Hid Hw Hfit) as (sorted & Es & Rd & _).
   destruct (sort_headers_in_envelope files Henv) as (sorted' & Es' & Ps & Gs). rewrite Es in Es'. apply Ok_inj in Es'. subst sorted'.
   pose proof Hw as Hw0. unfold write_installed in Hw. rewrite Es in Hw. cbn [rbind] in Hw.
@@ -313,15 +301,13 @@ Proof.
   (* the second sort *)
   assert (C : forall x, In x files -> ckey (rec_clean x) = ckey x).
   { intros x Ix. unfold rec_clean, ckey. cbn [h_name]. destruct (h_isdir x); [|apply clean_idem].
-    apply clean_trim_slash. intro E.
-    apply (reach_not_root files (ckey x) (envelope_reach files Henv x Ix)). unfold ckey. rewrite E. reflexivity. }
+    apply clean_dir_trim. exact (reach_not_root files (ckey x) (envelope_reach files Henv x Ix)). }
   assert (S2 : sort_headers (map rec_clean sorted) = Ok (map rec_clean sorted)).
   { rewrite (sort_headers_map_perm rec_clean files sorted (fun h => eq_refl) (se_nodup files Henv) Ps C), Es. reflexivity. }
   (* the second list of file lines *)
-  assert (One : Forall one_slash sorted) by (eapply Permutation_Forall; [symmetry; exact Ps|exact Hone]).
   assert (PB : forall h, In h sorted -> h_isdir h = false -> plain_base (h_name h)).
   { intros h Ih. apply (se_base files Henv). eapply Permutation_in; [exact Ps|exact Ih]. }
-  pose proof (files_lines_clean enc hexdec sorted fl Ef One PB) as Ef2.
+  pose proof (files_lines_clean enc hexdec sorted fl Ef PB) as Ef2.
   exists sorted, fl, (join s_nl (pkg_to_installed enc (norm_inst p) ++ drop_z fl) +++ s_nl +++ s_nl).
   split; [exact Es|]. split; [exact Ef|]. split; [symmetry; exact Hw|]. split; [exact Rd|]. split; [exact S2|].
   split. { unfold write_installed. rewrite S2. cbn [rbind]. unfold installed_record_lines. rewrite Ef2. reflexivity. }
@@ -381,40 +367,27 @@ Proof.
       destruct (x =? y); [destruct It|]. destruct (starts "i:" x && starts "i:" y); destruct It as [E|[]]; discriminate.
 Qed.
 
-(* ---- the one_slash clause is needed (finding C16-F8) ---------------------------------------------- *)
+(* ---- fixed C16-F8: a directory name ending in two slashes ------------------------------------------ *)
+(* Before fix 8e9dafb, AddInstalledPackage removed ONE trailing slash per write: the
+   header a// was written F:a/, read as a/, and written F:a the second time.  Now it
+   is written F:a both times (regression replay; the same list is in the harness corpus). *)
 Definition witness_two_slashes : list hdr := [mkHdr "a//" true 493 0 0 ""; mkHdr "a/x" false 420 0 0 ""].
-Lemma one_slash_iff files : two_slashes files = false <-> Forall one_slash files.
-Proof.
-  unfold two_slashes. induction files as [|h files IH]; cbn [existsb]; [split; [constructor|reflexivity]|].
-  rewrite orb_false_iff, IH. unfold one_slash at 2, ends_slash. split.
-  - intros [H F]. constructor; [|exact F]. intros D E. rewrite D, E, Ascii.eqb_refl in H. discriminate.
-  - intro F. inversion F as [|? ? H F']; subst. split; [|exact F'].
-    destruct (h_isdir h); [|reflexivity]. specialize (H eq_refl). cbn [andb].
-    destruct (last_char (trim_suffix_char ch_slash (h_name h))) as [a|]; [|reflexivity].
-    destruct (Ascii.eqb a ch_slash) eqn:E; [|reflexivity]. apply Ascii.eqb_eq in E. congruence.
-Qed.
-
-Theorem installed_fixpoint_double_slash_refuted :
-  sort_envelope witness_two_slashes /\ ~ Forall one_slash witness_two_slashes /\
-  exists t p' fs' t',
+Theorem installed_double_slash_fixed :
+  sort_envelope witness_two_slashes /\ two_slashes witness_two_slashes = true /\
+  exists t t',
     write_installed wenc whex witness_inst_pkg witness_two_slashes = Ok t /\
-    parse_installed wdec t = Ok [(p', fs')] /\
-    write_installed wenc whex p' fs' = Ok t' /\
-    ~ InstalledFixpointModIZ t t' /\
-    In "viol:installed-read-write-not-fixpoint" (installed_fixpoint_tags t (Ok t')) /\
-    two_slashes witness_two_slashes = true.
+    parse_installed wdec t = Ok [(norm_inst witness_inst_pkg, [mkHdr "a" true 493 0 0 ""; mkHdr "a/x" false 420 0 0 ""])] /\
+    write_installed wenc whex (norm_inst witness_inst_pkg) [mkHdr "a" true 493 0 0 ""; mkHdr "a/x" false 420 0 0 ""] = Ok t' /\
+    In "F:a" (split_on ch_nl t) /\ In "F:a" (split_on ch_nl t') /\
+    InstalledFixpointModIZ t t'.
 Proof.
-  split; [|split].
+  split; [|split; [reflexivity|]].
   - constructor.
     + vm_compute. repeat constructor; cbn; intuition discriminate.
     + intros h I. cbn in I. repeat destruct I as [<-|I]; try (vm_compute; discriminate). destruct I.
     + intros h I. cbn in I. repeat destruct I as [<-|I]; try (vm_compute; reflexivity). destruct I.
     + intros h I D. cbn in I. repeat destruct I as [<-|I]; try discriminate D; try (vm_compute; repeat split; discriminate). destruct I.
-  - intro F. apply one_slash_iff in F. vm_compute in F. discriminate.
-  - eexists _, _, _, _. split; [vm_compute; reflexivity|]. split; [vm_compute; reflexivity|]. split; [vm_compute; reflexivity|].
-    split; [|split; [|reflexivity]].
-    + intro H. pose proof (proj1 (installed_fixpoint_validator _ _) H) as H'. clear H. rename H' into H. cbv beta in H.
-      match type of H with forall t, In t ?L -> _ =>
-        assert (I : In "viol:installed-read-write-not-fixpoint" L) by (vm_compute; tauto); destruct (H _ I); discriminate end.
-    + vm_compute. tauto.
+  - eexists _, _. split; [vm_compute; reflexivity|]. split; [vm_compute; reflexivity|]. split; [vm_compute; reflexivity|].
+    split; [vm_compute; tauto|]. split; [vm_compute; tauto|].
+    apply installed_fixpoint_validator. vm_compute. intros t [<-|[]]. left. reflexivity.
 Qed.
